@@ -382,6 +382,61 @@ nd::harnesses! {
         }
     }
 
+    /// The provided Iterator methods on a CIterator (whether the library overrides them or not) agree with their
+    /// definition in terms of `next`: nth / skip / count / last / step_by over drop-counted items, also when they run
+    /// past the end of the source - every item is delivered or dropped exactly once, nothing else is dropped.
+    #[kani::unwind(7)]
+    fn c15_citer_provided_methods_owned_once() {
+        reset();
+        let n = nd::range(0, 3);
+        let k = nd::range(0, 4);
+        let op: u8 = nd::any();
+        nd::assume(op < 5);
+        nd::cover!(op == 0 && k >= n && n > 0, "nth past the end of a non-empty source");
+        nd::cover!(op == 0 && k < n, "nth inside the source");
+        let mut src: [Option<Pay>; 3] = [None, None, None];
+        let mut i = 0;
+        while i < n {
+            src[i] = Some(Pay::new(i as u32));
+            i += 1;
+        }
+        {
+            let mut it = src.iter_mut().filter_map(|s| s.take());
+            let mut ci = CIterator::new(&mut it);
+            match op {
+                0 => {
+                    let r = ci.nth(k);
+                    assert!(r.is_some() == (k < n));
+                    if let Some(p) = &r { assert!(p.val == k as u32 && p.is_live()); }
+                    let taken = if k < n { k + 1 } else { n };
+                    assert!(live() == (n - taken) as i32 + if k < n { 1 } else { 0 }, "skipped items dropped once, the rest still owned by the source");
+                }
+                1 => {
+                    let mut sk = ci.skip(k);
+                    let r = sk.next();
+                    assert!(r.is_some() == (k < n));
+                    if let Some(p) = &r { assert!(p.val == k as u32 && p.is_live()); }
+                }
+                2 => assert!(ci.count() == n && live() == 0),
+                3 => {
+                    let r = ci.last();
+                    assert!(r.is_some() == (n > 0));
+                    if let Some(p) = &r { assert!(p.val == (n - 1) as u32 && p.is_live()); }
+                    assert!(live() == if n > 0 { 1 } else { 0 });
+                }
+                _ => {
+                    let mut st = ci.step_by(2);
+                    let a = st.next();
+                    let b = st.next();
+                    assert!(a.is_some() == (n > 0) && b.is_some() == (n > 2));
+                    if let Some(p) = &b { assert!(p.val == 2 && p.is_live()); }
+                }
+            }
+        }
+        drop(src);
+        assert!(live() == 0 && drops() == made(), "every item destroyed exactly once");
+    }
+
     /// A source that is not fused: the wrapper answers every poll with exactly what the source answers to that poll
     /// (an item after a None is not lost), and polls the source once per poll.
     #[kani::unwind(8)]
